@@ -74,11 +74,21 @@ Fixpoint sres_ok (e : list (list ref * list (name * ref))) (r : list (list value
   | (xs, eb) :: e', (w, b) :: r' => refs_ok xs w && binds_ok eb (sort_binds b) && sres_ok e' r'
   | _, _ => false
   end.
-Definition is_perm_of (a b : list tag) : bool :=
-  forallb (fun x => existsb (String.eqb x) b) a && forallb (fun x => existsb (String.eqb x) a) b
-  && Nat.eqb (List.length a) (List.length (nodup string_dec b)).
+(* core.py:504-508: the scopes are walked in the order of
+   dict.fromkeys of AST_TYPES_WITH_BODY followed by AST_TYPES_WITH_ORELSE -- first occurrences, table order *)
+Fixpoint dedup (seen l : list tag) : list tag :=
+  match l with
+  | [] => []
+  | x :: tl => if existsb (String.eqb x) seen then dedup seen tl else x :: dedup (x :: seen) tl
+  end.
+Fixpoint tags_eqb (a b : list tag) : bool :=
+  match a, b with
+  | [], [] => true
+  | x :: a', y :: b' => String.eqb x y && tags_eqb a' b'
+  | _, _ => false
+  end.
 Definition scase_ok (body_tags : list tag) (c : scase) : bool :=
-  is_perm_of (s_order c) body_tags && sres_ok (s_exp c) (walk_sequence (s_order c) (s_root c) (s_tmpls c)).
+  tags_eqb (s_order c) (dedup [] body_tags) && sres_ok (s_exp c) (walk_sequence (s_order c) (s_root c) (s_tmpls c)).
 
 (* ---------------------------------------------------------------------------------------------- *)
 (* the exhaustive family: item lists over {object, Constant(0), Constant(1), Wildcard x, Wildcard y}
